@@ -174,8 +174,10 @@ options_get_info(options_t     *options,     /* global options */
                         printf("Error: Unrecognized compression code in %d <%s>\n", obj->comp.type, path);
                         break;
                 }; /*switch */
-                for (i = 0; i < rank; i++) {
-                    /* To use chunking with RLE, Skipping Huffman, and GZIP compression */
+                /* To use chunking with RLE, Skipping Huffman, and GZIP compression.
+                   The global lengths apply only to objects of their rank; an object that is
+                   chunked already keeps its own lengths (chunk_g has no entries for it). */
+                for (i = 0; i < rank && options->chunk_g.rank == rank; i++) {
                     chunk_def->comp.chunk_lengths[i] = options->chunk_g.chunk_lengths[i];
                 }
             } /* chunk_flags */
